@@ -13,6 +13,7 @@ class Body:
         self.raw = raw
         self.crate_kind = crate_kind
         self.path = raw['path']
+        self.canon = raw.get('canon')
         self.blocks = raw['blocks']
         self.locals = raw['locals']
         self.arg_count = raw['arg_count']
@@ -69,6 +70,7 @@ class Facts:
         self.dir = facts_dir
         self.crates = []
         self.bodies = {}      # normalised path -> Body
+        self.by_canon = {}    # crate-qualified canonical def path -> Body
         self.hir = {}         # normalised path -> hir tree
         self.types = {}
         self.adts = {}
@@ -91,6 +93,9 @@ class Facts:
                 if kind != 'lib' and key in self.bodies:
                     key = kind + '::' + key
                 self.bodies[key] = b
+                b.key_in_facts = key
+                if b.canon:
+                    self.by_canon[b.canon] = b
             for h in d.get('hir') or []:
                 k = h['path']
                 if kind != 'lib' and k in self.hir:
@@ -125,6 +130,20 @@ class Facts:
 
     def body(self, path):
         return self.bodies.get(self.norm(path))
+
+    def body_of_fnconst(self, fc):
+        """Workspace body denoted by an exported function constant (canonical path first)."""
+        for k in ('resolved_canon', 'fn_canon'):
+            c = fc.get(k)
+            if c and c in self.by_canon:
+                return self.by_canon[c]
+        for k in ('resolved', 'fn'):
+            c = fc.get(k)
+            if c:
+                b = self.body(c)
+                if b is not None:
+                    return b
+        return None
 
     def find_bodies(self, pred):
         return [b for b in self.bodies.values() if pred(b)]
